@@ -161,13 +161,14 @@ class SV:
 class SymSeq:
     """Immutable symbolic-length sequence (Python tuple or frozen view)."""
 
-    __slots__ = ("length", "arr", "ety", "kind")
+    __slots__ = ("length", "arr", "ety", "kind", "meta")
 
-    def __init__(self, length, arr, ety, kind="tuple"):
+    def __init__(self, length, arr, ety, kind="tuple", meta=None):
         self.length = length  # python int or z3 Int
         self.arr = arr  # z3 Array Int -> ety.sort()
         self.ety = ety
         self.kind = kind
+        self.meta = meta  # ghost witnesses (e.g. position maps of a filter comprehension)
 
     def __repr__(self):
         return f"SymSeq(len={self.length}, {self.ety})"
